@@ -362,3 +362,274 @@ def c20(tier, seed):
 from .runtime_checks import c15  # noqa: E402
 
 REGISTRY = {'C15': c15, 'C01': c01, 'C02': c02, 'C03': c03, 'C04': c04, 'C05': c05, 'C20': c20}
+
+
+# ----------------------------------------------------------------------------- C13 callbacks
+def c13(tier, seed):
+    tp = tier_params(tier)
+    return lex_family('C13', tier, seed, relevant={'C13'}, name='lex',
+                      select=lambda ds: [d for d in ds if 'cb' in d.tags and d.expect == 'accept'], **tp)
+
+
+# ----------------------------------------------------------------------------- C06 / C12 joint explorations
+def task_pair(pl):
+    from . import joint
+    progA = pipeline.load_program(pl['mirA'])
+    progB = pipeline.load_program(pl['mirB'])
+    N = pl['N']
+    while True:
+        try:
+            r = joint.explore_pair(progA, progB, pl['d'], N, pl['start'], budget=pl.get('budget'), release=pl.get('release', False))
+            break
+        except EngineError as e:
+            if 'time budget' in str(e) and N > 3:
+                N -= 1
+                continue
+            raise
+    r.update(id=pl['d'].id, pair=pl['pair'], start=pl['start'], N=N)
+    return r
+
+
+def task_twins(pl):
+    from . import joint
+    prog = pipeline.load_program(pl['mir'])
+    N = pl['N']
+    while True:
+        try:
+            r = joint.explore_twins(prog, pl['d'], pl['twin'], N, pl['start'], budget=pl.get('budget'))
+            break
+        except EngineError as e:
+            if 'time budget' in str(e) and N > 3:
+                N -= 1
+                continue
+            raise
+    r.update(id=pl['d'].id, pair=pl['cfg'], start=pl['start'], N=N)
+    return r
+
+
+def native_stream(P, name, defs, d, cfg, data, start, profile='dev'):
+    key = (name, cfg, profile)
+    if key not in _native:
+        _native[key] = pipeline.build_native(name, defs, cfg, profile)
+    return pipeline.native_run(_native[key], d.id, data, start=start)
+
+
+def joint_report(prop, tier, seed, results, ev, confirm, n_defs, n_cfg, explanation, extra_cov=None):
+    rc = 0
+    tot = dict(leaves=0, queries=0, solver_s=0.0, paths=0)
+    kinds = {}
+    fns, stubs = set(), set()
+    samples = []
+    per = {}
+    confirmed = 0
+    depth = {}
+    for st, key, r, wall in results:
+        if st != 'ok':
+            log(f'ENGINE: {key}: {str(r)[-700:]}')
+            rc = 2
+            continue
+        tot['leaves'] += r['leaves']
+        tot['queries'] += r['stats']['queries']
+        tot['solver_s'] += r['stats']['solver_s']
+        tot['paths'] += r['stats']['paths']
+        for k, v in r['kinds'].items():
+            kinds[k] = kinds.get(k, 0) + v
+        fns.update(r['fns'])
+        stubs.update(r['builtins'])
+        pd = per.setdefault(r['id'], dict(leaves=0, N=set(), pairs=set()))
+        pd['leaves'] += r['leaves']
+        pd['N'].add(r['N'])
+        pd['pairs'].add(str(r['pair']))
+        samples += [dict(s, definition=r['id']) for s in r['samples'][:1]]
+        if 'depthB' in r and r['depthB']:
+            dd = depth.setdefault((r['id'], str(r['pair'])), {})
+            dd[r['N']] = (max(r['depthA']), max(r['depthB']))
+        seen = set()
+        for f in r['failures']:
+            sig = f['what'][:60]
+            if sig in seen:
+                continue
+            seen.add(sig)
+            ok, info = confirm(r, f)
+            if ok is False:
+                log(f'ENGINE: model did not reproduce natively on {r["id"]}: {f["what"][:200]}')
+                rc = max(rc, 2)
+                continue
+            confirmed += 1
+            nm = hashlib.sha1(json.dumps([r['id'], str(r['pair']), f['what']]).encode()).hexdigest()[:12]
+            role = {'definition': r['id']}
+            rc = max(rc, known_or_violation(prop, role, f'{r["id"]} {r["pair"]} start={r["start"]} '
+                                            f'input={bytes(f["model"]["bytes"]).hex()}: {f["what"][:300]}', info, ev, nm))
+    ev.coverage = {
+        'programs': n_defs * n_cfg, 'disagreements_checked': tot['leaves'], 'evaluations': tot['leaves'],
+        'distinct_nontrivial': sum(v for k, v in kinds.items() if k != 'none'),
+        'rule': 'one case = one leaf of the joint execution tree (both programs on the same symbolic input); non-trivial = not the '
+                'immediate None',
+        'samples': samples[:10], 'leaf_kinds': kinds,
+        'bounds': {'per_definition': {k: {'leaves': v['leaves'], 'N_reached': sorted(v['N']), 'pairs': sorted(v['pairs'])}
+                                      for k, v in per.items()},
+                   'outside': 'inputs longer than N bytes; definitions outside the corpus'},
+        'queries_discharged': tot['queries'], 'solver_s': round(tot['solver_s'], 1), 'paths': tot['paths'],
+        'functions_encoded_count': len(fns), 'functions_encoded': sorted(fns)[:300], 'stubs': sorted(stubs),
+        'failures_confirmed_natively': confirmed, 'checker_cmd': f'./check {prop} --tier {tier}', 'explanation': explanation,
+    }
+    if extra_cov:
+        ev.coverage.update(extra_cov)
+    ev.assumptions = ['inputs of at most N bytes', 'valid UTF-8 for str sources', 'core builtins (stubs)']
+    if tot['leaves'] == 0:
+        rc = max(rc, 2)
+    return rc, depth
+
+
+def c06(tier, seed):
+    ev = report.Evidence('C06', tier, seed, 'translation_validation')
+    tp = tier_params(tier)
+    pairs = [('tc-unsafe', 'sm-unsafe')] if tier == 'quick' else [('tc-unsafe', 'sm-unsafe'), ('tc-safe', 'sm-safe')]
+    defs = [d for d in corpus_defs.all_defs() if d.expect == 'accept' and ('quick' in d.tags or tier != 'quick')]
+    cfgs = sorted({c for p in pairs for c in p})
+    P = prepare(defs, cfgs, 'lex-C06')
+    payloads = []
+    for d in P.usable:
+        for a, b in pairs:
+            for s in tp['starts']:
+                payloads.append(dict(key=f'{d.id}/{a}~{b}/{s}', d=d, mirA=P.progs[(a, 'dev')], mirB=P.progs[(b, 'dev')],
+                                     pair=(a, b), N=tp['N'], start=s, budget=tp['budget']))
+    # stack depth probes: the same definitions at a smaller and a larger bound
+    depth_defs = [d for d in P.usable if d.id in ('kw_ident', 'skips', 'cb_unit')]
+    for d in depth_defs:
+        for n in (3, 5) if tier == 'quick' else (3, 5, 8):
+            payloads.append(dict(key=f'{d.id}/depth/{n}', d=d, mirA=P.progs[(pairs[0][0], 'dev')],
+                                 mirB=P.progs[(pairs[0][1], 'dev')], pair=('depth', n), N=n, start=0, budget=tp['budget'] * 2))
+    random.Random(seed).shuffle(payloads)
+    results = pipeline.run_tasks(task_pair, payloads)
+
+    def confirm(r, f):
+        d = [x for x in P.usable if x.id == r['id']][0]
+        data = bytes(f['model']['bytes'])
+        a, b = r['pair'] if r['pair'][0] != 'depth' else pairs[0]
+        ia, pa, _ = native_stream(P, 'lex-C06', P.usable, d, a, data, r['start'])
+        ib, pb, _ = native_stream(P, 'lex-C06', P.usable, d, b, data, r['start'])
+        info = {'property': 'C06', 'def': d.id, 'cfg': a, 'cfg_b': b, 'start': r['start'], 'input_hex': data.hex(),
+                'what': f['what'], 'native_a': ia, 'native_b': ib, 'panic_a': pa, 'panic_b': pb}
+        return (ia != ib or pa != pb), info
+
+    rc, depth = joint_report('C06', tier, seed, results, ev, confirm, len(P.usable), len(cfgs),
+                             'joint symbolic execution of the tail-call and the state-machine lexer (exported MIR of both builds) '
+                             'on one path tree: per leaf the results, spans, skip regions and callback invocation logs must be equal')
+    # stack: call depth of the state-machine lexer must not grow with N (nor with the number of skips)
+    growth = {}
+    for (did, pair), byN in depth.items():
+        if not pair.startswith("('depth'"):
+            continue
+        growth.setdefault(did, {})[eval(pair)[1]] = byN[eval(pair)[1]] if eval(pair)[1] in byN else list(byN.values())[0]
+    for did, g in growth.items():
+        smd = [v[1] for k, v in sorted(g.items())]
+        if len(set(smd)) > 1:
+            role = {'definition': did, 'what': 'stack depth grows'}
+            rc = max(rc, known_or_violation('C06', role, f'state-machine lexer call depth grows with input bound on {did}: {g}',
+                                            {'property': 'C06', 'depths': {str(k): v for k, v in g.items()}}, ev, 'depth-' + did))
+    # static side condition: no recursion reachable from the state-machine lex
+    cyc = callgraph_cycles(pipeline.load_program(P.progs[(pairs[0][1], 'dev')]))
+    if cyc:
+        rc = max(rc, known_or_violation('C06', {'what': 'recursion'}, f'state-machine build has recursive calls: {cyc[:3]}',
+                                        {'property': 'C06', 'cycles': cyc[:10]}, ev, 'recursion'))
+    ev.coverage['call_depth_by_bound'] = {k: {str(n): {'tailcall': v[0], 'state_machine': v[1]} for n, v in g.items()}
+                                          for k, g in growth.items()}
+    ev.coverage['state_machine_call_graph_cycles'] = len(cyc)
+    ev.write()
+    log(f'C06 {tier}: {ev.coverage["evaluations"]} joint leaves, rc={rc}')
+    return rc
+
+
+def callgraph_cycles(prog):
+    """cycles among functions of the corpus crate's generated lexers (state-machine build must have none)"""
+    g = {}
+    for k, f in prog.fns.items():
+        if not f or not f['body'] or '::lex' not in f['name']:
+            continue
+        outs = set()
+        for bb in f['body']['blocks']:
+            t = bb['t']
+            if t[0] == 'call' and isinstance(t[1]['fn'], str):
+                outs.add(t[1]['fn'])
+        g[k] = outs
+    cycles = []
+    color = {}
+
+    def dfs(u, stack):
+        color[u] = 1
+        for v in g.get(u, ()):
+            if v not in g:
+                continue
+            if color.get(v) == 1:
+                cycles.append([prog.fns[x]['name'] for x in stack[stack.index(v):] + [v]] if v in stack else [prog.fns[v]['name']])
+            elif color.get(v) is None:
+                dfs(v, stack + [v])
+        color[u] = 2
+    for u in g:
+        if color.get(u) is None:
+            dfs(u, [u])
+    return cycles
+
+
+def make_twin(d):
+    """the utf8 = false twin of a str-mode definition (same patterns, same literals)"""
+    import copy
+    t = copy.deepcopy(d)
+    t.id = d.id + '_b'
+    t.utf8 = False
+    return t
+
+
+def c12(tier, seed):
+    ev = report.Evidence('C12', tier, seed, 'translation_validation')
+    tp = tier_params(tier)
+    base = [d for d in corpus_defs.all_defs() if d.expect == 'accept' and d.utf8 and 'cb' not in d.tags
+            and not any(v.field for v in d.variants) and ('quick' in d.tags or 'unicode' in d.tags or tier != 'quick')]
+    twins = {d.id: make_twin(d) for d in base}
+    alld = base + list(twins.values())
+    cfgs = ['tc-unsafe'] if tier == 'quick' else ['tc-unsafe', 'sm-safe']
+    P = prepare(alld, cfgs, 'lex-C12')
+    usable = {d.id for d in P.usable}
+    payloads = []
+    for d in base:
+        if d.id not in usable or twins[d.id].id not in usable:
+            continue
+        for c in cfgs:
+            for s in tp['starts']:
+                payloads.append(dict(key=f'{d.id}/{c}/{s}', d=d, twin=twins[d.id], mir=P.progs[(c, 'dev')], cfg=c, N=tp['N'],
+                                     start=s, budget=tp['budget']))
+    random.Random(seed).shuffle(payloads)
+    results = pipeline.run_tasks(task_twins, payloads)
+
+    def confirm(r, f):
+        d = [x for x in base if x.id == r['id']][0]
+        data = bytes(f['model']['bytes'])
+        ia, pa, _ = native_stream(P, 'lex-C12', P.usable, d, r['pair'], data, r['start'])
+        ib, pb, _ = native_stream(P, 'lex-C12', P.usable, twins[d.id], r['pair'], data, r['start'])
+        info = {'property': 'C12', 'def': d.id, 'cfg': r['pair'], 'start': r['start'], 'input_hex': data.hex(),
+                'what': f['what'], 'native_str': ia, 'native_bytes': ib}
+
+        def norm(items):
+            oks = [(x[1], x[2], x[3]) for x in (items or []) if x[0] == 'ok']
+            errb = set()
+            for x in (items or []):
+                if x[0] == 'err':
+                    errb.update(range(x[1], x[2]))
+            return oks, errb
+        return (norm(ia) != norm(ib) or pa != pb), info
+
+    rc, _ = joint_report('C12', tier, seed, results, ev, confirm, len(base), len(cfgs),
+                         'a str-mode definition and its utf8=false twin (both compiled by the real derive into one crate) are '
+                         'executed on the same symbolic valid-UTF-8 input: equal Ok tokens and spans, equal bytes covered by errors')
+    # acceptance side: a str-mode definition whose twin differs in acceptance
+    for d in base:
+        if (d.id in usable) != (twins[d.id].id in usable):
+            rc = max(rc, known_or_violation('C12', {'definition': d.id, 'what': 'acceptance'},
+                                            f'{d.id}: accepted in one mode only', {'property': 'C12', 'def': d.id}, ev, 'acc-' + d.id))
+    ev.write()
+    log(f'C12 {tier}: {ev.coverage["evaluations"]} joint leaves over {len(base)} twin pairs, rc={rc}')
+    return rc
+
+
+REGISTRY.update({'C06': c06, 'C12': c12, 'C13': c13})
